@@ -32,6 +32,7 @@ class FunctionInfo:
         self.parent: Optional["FunctionInfo"] = parent  # enclosing function
         self.decorators = [ast.unparse(d) for d in node.decorator_list] if hasattr(node, "decorator_list") else []
         self.nested: Dict[str, "FunctionInfo"] = {}
+        self.inlined = False  # an unknown helper whose body was inlined into its caller(s)
 
     @property
     def is_property(self):
@@ -129,15 +130,22 @@ _BUILTIN_EXC["subprocess.SubprocessError"] = ["Exception", "BaseException"]
 
 
 class Program:
-    def __init__(self, src_root: pathlib.Path = SRC, pkg: str = PKG):
+    def __init__(self, src_root: pathlib.Path = SRC, pkg: str = PKG, inline: bool = True):
         self.src_root = pathlib.Path(src_root)
         self.pkg = pkg
         self.modules: Dict[str, Module] = {}
         self.classes: Dict[str, ClassInfo] = {}
         self.functions: Dict[str, FunctionInfo] = {}
-        self.stats = dict(modules=0, classes=0, functions=0, calls=0, trys=0, raises=0, lines=0)
+        self.stats = dict(modules=0, classes=0, functions=0, calls=0, trys=0, raises=0, lines=0, inlined_calls=0)
+        from .inline import load_known
+        self.known_functions = load_known() if inline else None
+        self.inlined_helpers: set = set()
         self._load()
         self._link()
+        for fq in self.inlined_helpers:
+            if fq in self.functions:
+                self.functions[fq].inlined = True
+        self.stats["inlined_helpers"] = len(self.inlined_helpers)
 
     # ---------------------------------------------------------------- load
     def _load(self):
@@ -158,6 +166,11 @@ class Program:
                 tree = ast.parse(src, filename=str(path))
             except SyntaxError as ex:
                 raise AnalysisError("cannot parse %s: %s" % (rel, ex))
+            if self.known_functions is not None:
+                from .inline import preprocess
+                inl, n_inl = preprocess(name, tree, self.known_functions)
+                self.inlined_helpers |= inl
+                self.stats["inlined_calls"] += n_inl
             m = Module(name, path, "src/" + rel.as_posix(), src, tree)
             self.modules[name] = m
             self.stats["modules"] += 1
@@ -415,6 +428,13 @@ class Program:
             if name in ci.methods and ci.methods[name] not in out:
                 out.append(ci.methods[name])
         return out
+
+    @property
+    def scan_functions(self):
+        """Functions to scan in package-wide inventories: helpers that were
+        inlined into their callers are skipped (their statements are counted at
+        the call sites)."""
+        return [f for f in self.functions.values() if not f.inlined]
 
     # -------------------------------------------------------------- lookup
     def func(self, fq: str) -> FunctionInfo:
